@@ -148,6 +148,54 @@ Proof. intros. unfold s_detach. destruct (s_term x); reflexivity. Qed.
 Global Hint Rewrite s_reply_inflight s_reply_subs s_reply_term s_reply_done s_reply_detachq
   s_detach_inflight s_detach_subs s_detach_term s_detach_done : lc.
 
+(* ---------- the TopicUnreg step = an optional 404 queued to the requester, then unreg_step ---------- *)
+
+Definition pre404 (c : config) (r : req) (err : bool) : config :=
+  if err then on_sess c (r_sid r) (fun x => s_reply x (rep r CNotFound)) else c.
+
+Lemma exec_unreg_inv : forall c i c', exec (TopicUnreg i) c = Some c' ->
+  exists r rest aC eR, take_first i (c_tunreg c) = Some (r, rest) /\
+    (eR = true -> r_init r = true /\ r_aschan r = true /\ c_ischan c (i_name (c_inst c i)) = false) /\
+    unreg_step (pre404 c r eR) i aC eR = Some c'.
+Proof.
+  intros c i c' H. simpl in H.
+  destruct (take_first i (c_tunreg c)) as [[r rest]|] eqn:E; [|discriminate].
+  exists r, rest. unfold verify_chan in H.
+  destruct (r_init r); [destruct (r_aschan r); [destruct (c_ischan c (i_name (c_inst c i))) eqn:Ec|]|].
+  - exists true, false. split; [reflexivity|split; [discriminate|exact H]].
+  - exists false, true. split; [reflexivity|split; [auto|exact H]].
+  - exists false, false. split; [reflexivity|split; [discriminate|exact H]].
+  - exists false, false. split; [reflexivity|split; [discriminate|exact H]].
+Qed.
+
+Lemma unreg_exec : forall c i r rest, take_first i (c_tunreg c) = Some (r, rest) ->
+  exists aC eR, exec (TopicUnreg i) c = unreg_step (pre404 c r eR) i aC eR.
+Proof.
+  intros c i r rest E. simpl. rewrite E.
+  destruct (if r_init r then verify_chan c (i_name (c_inst c i)) r else (false, false)) as [aC eR].
+  exists aC, eR. reflexivity.
+Qed.
+
+Lemma pre404_frame : forall c r e,
+  c_inst (pre404 c r e) = c_inst c /\ c_next (pre404 c r e) = c_next c /\ c_table (pre404 c r e) = c_table c /\
+  c_hjoin (pre404 c r e) = c_hjoin c /\ c_hunreg (pre404 c r e) = c_hunreg c /\ c_inits (pre404 c r e) = c_inits c /\
+  c_treg (pre404 c r e) = c_treg c /\ c_tunreg (pre404 c r e) = c_tunreg c /\ c_texit (pre404 c r e) = c_texit c /\
+  c_store (pre404 c r e) = c_store c /\ c_owner (pre404 c r e) = c_owner c /\ c_user (pre404 c r e) = c_user c /\
+  c_nextrid (pre404 c r e) = c_nextrid c /\ c_ischan (pre404 c r e) = c_ischan c.
+Proof. intros. unfold pre404. destruct e; simpl; repeat split. Qed.
+
+Lemma pre404_sess : forall c r e s,
+  s_subs (c_sess (pre404 c r e) s) = s_subs (c_sess c s) /\ s_inflight (c_sess (pre404 c r e) s) = s_inflight (c_sess c s) /\
+  s_term (c_sess (pre404 c r e) s) = s_term (c_sess c s) /\ s_done (c_sess (pre404 c r e) s) = s_done (c_sess c s) /\
+  s_detachq (c_sess (pre404 c r e) s) = s_detachq (c_sess c s).
+Proof.
+  intros. unfold pre404. destruct e; simpl.
+  - unfold upd. destruct (Nat.eqb_spec s (r_sid r)) as [->|].
+    + autorewrite with lc. repeat split; reflexivity.
+    + repeat split; reflexivity.
+  - repeat split; reflexivity.
+Qed.
+
 (* ---------- invariant 1: in-flight balance ---------- *)
 
 (* every message in hub.join, in a topicInit and in topic.reg is a client request (msg.init) *)
@@ -187,10 +235,33 @@ Proof.
     exists j. tauto.
 Qed.
 
+Lemma init_true_unreg_step : forall c i a e c', init_true c -> unreg_step c i a e = Some c' -> init_true c'.
+Proof.
+  intros c i a e c' (H1 & H2 & H3) Hs. unfold unreg_step in Hs.
+  destruct (negb (is_run (i_phase (c_inst c i)))); [discriminate|].
+  destruct (take_first i (c_tunreg c)) as [[r unreg']|] eqn:E; [|discriminate].
+  simpl in Hs. inv_some.
+  destruct (r_init r); simpl.
+  + destruct (inactive (c_inst c i)); [repeat split; simpl; auto|].
+    destruct (r_kind r) as [|[|]|]; simpl.
+    * destruct (mem _ _); repeat split; simpl; auto.
+    * destruct (_ =? _); [|destruct e]; repeat split; simpl; auto.
+    * destruct (mem _ _); repeat split; simpl; auto.
+    * destruct (mem _ _); repeat split; simpl; auto.
+  + destruct (inactive (c_inst c i)); [repeat split; simpl; auto|].
+    destruct (mem _ _); repeat split; simpl; auto.
+Qed.
+
+Lemma init_true_pre404 : forall c r e, init_true c -> init_true (pre404 c r e).
+Proof.
+  intros c r e H. destruct (pre404_frame c r e) as (_ & _ & _ & E1 & _ & E2 & E3 & _).
+  unfold init_true. rewrite E1, E2, E3. exact H.
+Qed.
+
 Lemma init_true_step : forall c l c', init_true c -> step c l c' -> init_true c'.
 Proof.
   intros c l c' (H1 & H2 & H3) Hs. unfold step in Hs.
-  destruct l; simpl in Hs.
+  destruct l; try (simpl in Hs).
   - (* ClientSub *)
     destruct (s_term (c_sess c s) || negb (s_inflight (c_sess c s) =? 0)); [discriminate|].
     destruct (lookup t (s_subs (c_sess c s))); inv_some; repeat split; simpl; auto.
@@ -232,20 +303,11 @@ Proof.
     simpl in Hs. inv_some.
     destruct (inactive (c_inst c i)); [repeat split; simpl; auto|].
     destruct (lookup _ _); [repeat split; simpl; auto|].
+    destruct (verify_chan _ _ _) as [aC [|]]; [repeat split; simpl; auto|].
     destruct ok; repeat split; simpl; auto.
   - (* TopicUnreg *)
-    destruct (negb (is_run (i_phase (c_inst c i)))); [discriminate|].
-    destruct (take_first i (c_tunreg c)) as [[r unreg']|] eqn:E; [|discriminate].
-    simpl in Hs. inv_some.
-    destruct (r_init r); simpl.
-    + destruct (inactive (c_inst c i)); [repeat split; simpl; auto|].
-      destruct (r_kind r) as [|[|]|]; simpl.
-      * destruct (mem _ _); repeat split; simpl; auto.
-      * destruct (_ =? _); repeat split; simpl; auto.
-      * destruct (mem _ _); repeat split; simpl; auto.
-      * destruct (mem _ _); repeat split; simpl; auto.
-    + destruct (inactive (c_inst c i)); [repeat split; simpl; auto|].
-      destruct (mem _ _); repeat split; simpl; auto.
+    destruct (exec_unreg_inv _ _ _ Hs) as (r0 & rest0 & aC & eR & _ & _ & Hu).
+    eapply init_true_unreg_step; [|exact Hu]. apply init_true_pre404. repeat split; auto.
   - (* Evict *)
     destruct (negb (is_run (i_phase (c_inst c i))) || negb (mem s (i_sessions (c_inst c i)))); [discriminate|].
     destruct (inactive (c_inst c i)); inv_some; repeat split; simpl; auto.
@@ -293,11 +355,46 @@ Ltac fin Hb :=
   autorewrite with lc in *; simpl in *;
   try lia.
 
+Lemma balanced_unreg_step : forall c i a e c', inv_bal c -> unreg_step c i a e = Some c' -> balanced c'.
+Proof.
+  intros c i a e c' [(H1 & H2 & H3) Hb] Hs. unfold unreg_step in Hs. unfold balanced in *.
+  destruct (negb (is_run (i_phase (c_inst c i)))); [discriminate|].
+  destruct (take_first i (c_tunreg c)) as [[r unreg']|] eqn:E; [|discriminate].
+  simpl in Hs. inv_some.
+  intros s0; generalize (cntp_take_first s0 _ _ _ _ E); intros Hc; revert s0 Hc.
+  destruct (r_init r) eqn:Ei; simpl.
+  + destruct (inactive (c_inst c i)); [fin Hb|].
+    destruct (r_kind r) as [|[|]|]; simpl.
+    * destruct (mem _ _); fin Hb.
+    * destruct (_ =? _); [fin Hb|]. destruct e; [fin Hb|].
+      intros s0 Hc. specialize (Hb s0). unfold pending in *. simpl in *.
+      unfold on_sess, upd in *. simpl in *. unfold mine in *. rewrite Ei in *. simpl in *.
+      destruct (Nat.eqb_spec s0 (r_sid r)) as [->|Hne].
+      -- rewrite Nat.eqb_refl in *. simpl in *.
+         destruct (mem (r_sid r) (i_sessions (c_inst c i)) && _); rewrite ?Nat.eqb_refl; autorewrite with lc; simpl; autorewrite with lc; lia.
+      -- assert (En : Nat.eqb (r_sid r) s0 = false) by (apply Nat.eqb_neq; auto). rewrite En in *. simpl in *.
+         destruct (mem s0 (i_sessions (c_inst c i)) && _);
+           repeat (match goal with |- context [Nat.eqb ?a ?b] => destruct (Nat.eqb_spec a b); subst; simpl in * end);
+           autorewrite with lc; simpl; autorewrite with lc; try lia; try congruence.
+    * destruct (mem _ _); fin Hb.
+    * destruct (mem _ _); fin Hb.
+  + destruct (inactive (c_inst c i)); [fin Hb|].
+    destruct (mem _ _); fin Hb.
+Qed.
+
+Lemma inv_bal_pre404 : forall c r e, inv_bal c -> inv_bal (pre404 c r e).
+Proof.
+  intros c r e [H Hb]. split; [apply init_true_pre404; exact H|].
+  intros s. destruct (pre404_sess c r e s) as (_ & -> & _).
+  destruct (pre404_frame c r e) as (_ & _ & _ & E1 & _ & E2 & E3 & E4 & _).
+  unfold pending. rewrite E1, E2, E3, E4. apply Hb.
+Qed.
+
 Lemma balanced_step : forall c l c',
   inv_bal c -> nil_done_block c l = false -> step c l c' -> balanced c'.
 Proof.
   intros c l c' [(H1 & H2 & H3) Hb] Hnb Hs. unfold step in Hs. unfold balanced in *.
-  destruct l; simpl in Hs.
+  destruct l; try (simpl in Hs).
   - (* ClientSub *)
     destruct (s_term (c_sess c s)) eqn:Et; [discriminate|].
     destruct (Nat.eqb_spec (s_inflight (c_sess c s)) 0) as [E0|]; [|discriminate]. simpl in Hs.
@@ -355,30 +452,11 @@ Proof.
     intros s0; generalize (cntp_take_first s0 _ _ _ _ E); intros Hc; revert s0 Hc.
     destruct (inactive (c_inst c i)); [fin Hb|].
     destruct (lookup _ _); [fin Hb|].
+    destruct (verify_chan _ _ _) as [aC [|]]; [fin Hb|].
     destruct ok; fin Hb.
   - (* TopicUnreg *)
-    destruct (negb (is_run (i_phase (c_inst c i)))); [discriminate|].
-    destruct (take_first i (c_tunreg c)) as [[r unreg']|] eqn:E; [|discriminate].
-    simpl in Hs. inv_some.
-    intros s0; generalize (cntp_take_first s0 _ _ _ _ E); intros Hc; revert s0 Hc.
-    destruct (r_init r) eqn:Ei; simpl.
-    + destruct (inactive (c_inst c i)); [fin Hb|].
-      destruct (r_kind r) as [|[|]|]; simpl.
-      * destruct (mem _ _); fin Hb.
-      * destruct (_ =? _); [fin Hb|].
-        intros s0 Hc. specialize (Hb s0). unfold pending in *. simpl in *.
-        unfold on_sess, upd in *. simpl in *. unfold mine in *. rewrite Ei in *. simpl in *.
-        destruct (Nat.eqb_spec s0 (r_sid r)) as [->|Hne].
-        -- rewrite Nat.eqb_refl in *. simpl in *.
-           destruct (mem (r_sid r) (i_sessions (c_inst c i)) && _); rewrite ?Nat.eqb_refl; autorewrite with lc; simpl; autorewrite with lc; lia.
-        -- assert (En : Nat.eqb (r_sid r) s0 = false) by (apply Nat.eqb_neq; auto). rewrite En in *. simpl in *.
-           destruct (mem s0 (i_sessions (c_inst c i)) && _);
-             repeat (match goal with |- context [Nat.eqb ?a ?b] => destruct (Nat.eqb_spec a b); subst; simpl in * end);
-             autorewrite with lc; simpl; autorewrite with lc; try lia; try congruence.
-      * destruct (mem _ _); fin Hb.
-      * destruct (mem _ _); fin Hb.
-    + destruct (inactive (c_inst c i)); [fin Hb|].
-      destruct (mem _ _); fin Hb.
+    destruct (exec_unreg_inv _ _ _ Hs) as (r0 & rest0 & aC & eR & _ & _ & Hu).
+    eapply balanced_unreg_step; [|exact Hu]. apply inv_bal_pre404. split; [repeat split; auto|exact Hb].
   - (* Evict *)
     destruct (negb (is_run (i_phase (c_inst c i))) || negb (mem s (i_sessions (c_inst c i)))); [discriminate|].
     destruct (inactive (c_inst c i)); inv_some; fin Hb.
@@ -404,7 +482,7 @@ Proof.
     unfold on_sess, upd. simpl. destruct (Nat.eqb_spec s0 s); subst; simpl; lia.
 Qed.
 
-Lemma inv_bal_init : forall st ow us, inv_bal (init_config st ow us).
+Lemma inv_bal_init : forall st ow us ch, inv_bal (init_config st ow us ch).
 Proof.
   intros. split.
   - repeat split; simpl; intros; contradiction.
@@ -439,15 +517,16 @@ Qed.
    instance 1 is marked deleted and gets an exit message; the load of instance 1 fails (the
    topic row is gone) and the failure path sends on the nil `done` channel of that exit. *)
 Definition stale_unload_trace : list label :=
-  [ClientSub 1 1; HubJoin; InitDone 0 true; TopicReg 0 true; ClientLeave 1 1 false; TopicUnreg 0;
-   ClientDel 2 1; IdleTimeout 0; HubUnreg true; ClientSub 1 1; HubJoin; HubUnreg true; InitDone 1 false].
+  [ClientSub 1 1 false; HubJoin; InitDone 0 true; TopicReg 0 true; ClientLeave 1 1 false false; TopicUnreg 0;
+   ClientDel 2 1; IdleTimeout 0; HubUnreg true; ClientSub 1 1 false; HubJoin; HubUnreg true; InitDone 1 false].
 
 Definition ex_owner (t : tid) : uid := 2.
 Definition ex_user (s : sid) : uid := s.
 Definition ex_stored (t : tid) : bool := Nat.eqb t 1.
+Definition ex_chan (t : tid) : bool := false.
 
 Lemma stale_unload_unbalanced :
-  exists c, run stale_unload_trace (init_config ex_stored ex_owner ex_user) = Some c /\
+  exists c, run stale_unload_trace (init_config ex_stored ex_owner ex_user ex_chan) = Some c /\
             s_inflight (c_sess c 1) = 1 /\ pending 1 c = 0.
 Proof. eexists. split; [vm_compute; reflexivity|]. split; reflexivity. Qed.
 
@@ -483,8 +562,11 @@ Qed.
 Lemma topicunreg_enabled : forall c i, i_phase (c_inst c i) = PRun -> has_tag i (c_tunreg c) = true ->
   exists c', step c (TopicUnreg i) c'.
 Proof.
-  intros c i Hp Ht. unfold step. simpl. rewrite Hp. simpl.
-  destruct (has_tag_take_first _ _ _ Ht) as (r & l' & ->). eauto.
+  intros c i Hp Ht. unfold step.
+  destruct (has_tag_take_first _ _ _ Ht) as (r & l' & E).
+  destruct (unreg_exec c i r l' E) as (aC & eR & ->).
+  destruct (pre404_frame c r eR) as (Ei & _ & _ & _ & _ & _ & _ & Eu & _).
+  unfold unreg_step. rewrite Ei, Eu, Hp, E. simpl. eauto.
 Qed.
 
 Lemma topicexit_enabled : forall c i, i_phase (c_inst c i) = PRun -> has_tag i (c_texit c) = true ->
@@ -534,10 +616,29 @@ Proof.
   rewrite !has_tag_app. simpl. destruct (Nat.eqb_spec i j); [contradiction|]. reflexivity.
 Qed.
 
+Lemma init_has_goroutine_unreg_step : forall c i a e c',
+  init_has_goroutine c -> unreg_step c i a e = Some c' -> init_has_goroutine c'.
+Proof.
+  intros c i a e c' H Hs. unfold unreg_step in Hs. unfold init_has_goroutine in *.
+  destruct (negb (is_run (i_phase (c_inst c i)))) eqn:Ep; [discriminate|].
+  destruct (take_first i (c_tunreg c)) as [[r unreg']|] eqn:E; [|discriminate].
+  simpl in Hs. inv_some.
+  destruct (r_init r); simpl.
+  + destruct (inactive (c_inst c i)); [simpl; auto|].
+    destruct (r_kind r) as [|[|]|]; simpl.
+    * destruct (mem _ _); simpl; auto. intros j. unfold upd. destruct (Nat.eqb_spec j i); subst; simpl; auto.
+    * destruct (_ =? _); simpl; auto. destruct e; simpl; auto.
+      intros j. unfold upd. destruct (Nat.eqb_spec j i); subst; simpl; auto.
+    * destruct (mem _ _); simpl; auto. intros j. unfold upd. destruct (Nat.eqb_spec j i); subst; simpl; auto.
+    * destruct (mem _ _); simpl; auto. intros j. unfold upd. destruct (Nat.eqb_spec j i); subst; simpl; auto.
+  + destruct (inactive (c_inst c i)); [simpl; auto|].
+    destruct (mem _ _); simpl; auto. intros j. unfold upd. destruct (Nat.eqb_spec j i); subst; simpl; auto.
+Qed.
+
 Lemma init_has_goroutine_step : forall c l c', init_has_goroutine c -> step c l c' -> init_has_goroutine c'.
 Proof.
   intros c l c' H Hs. unfold step in Hs. unfold init_has_goroutine in *.
-  destruct l; simpl in Hs.
+  destruct l; try (simpl in Hs).
   - destruct (s_term (c_sess c s) || negb (s_inflight (c_sess c s) =? 0)); [discriminate|].
     destruct (lookup t (s_subs (c_sess c s))); inv_some; simpl; auto.
   - destruct (s_term (c_sess c s) || negb (s_inflight (c_sess c s) =? 0)); [discriminate|].
@@ -568,24 +669,12 @@ Proof.
     simpl in Hs. inv_some.
     destruct (inactive (c_inst c i)); [simpl; auto|].
     destruct (lookup _ _); [simpl; auto|].
+    destruct (verify_chan _ _ _) as [aC [|]]; [simpl; auto|].
     destruct ok; simpl; auto.
     intros j. unfold upd. destruct (Nat.eqb_spec j i); subst; simpl; auto.
-  - destruct (negb (is_run (i_phase (c_inst c i)))) eqn:Ep; [discriminate|].
-    destruct (take_first i (c_tunreg c)) as [[r unreg']|] eqn:E; [|discriminate].
-    simpl in Hs. inv_some.
-    assert (Hgen : forall c2, c_inits c2 = c_inits c ->
-              (forall j, i_phase (c_inst c2 j) = PInit -> i_phase (c_inst c j) = PInit) ->
-              forall j, i_phase (c_inst c2 j) = PInit -> has_tag j (c_inits c2) = true).
-    { intros c2 E1 E2 j Hj. rewrite E1. auto. }
-    destruct (r_init r); simpl.
-    + destruct (inactive (c_inst c i)); [simpl; auto|].
-      destruct (r_kind r) as [|[|]|]; simpl.
-      * destruct (mem _ _); simpl; auto. intros j. unfold upd. destruct (Nat.eqb_spec j i); subst; simpl; auto.
-      * destruct (_ =? _); simpl; auto. intros j. unfold upd. destruct (Nat.eqb_spec j i); subst; simpl; auto.
-      * destruct (mem _ _); simpl; auto. intros j. unfold upd. destruct (Nat.eqb_spec j i); subst; simpl; auto.
-      * destruct (mem _ _); simpl; auto. intros j. unfold upd. destruct (Nat.eqb_spec j i); subst; simpl; auto.
-    + destruct (inactive (c_inst c i)); [simpl; auto|].
-      destruct (mem _ _); simpl; auto. intros j. unfold upd. destruct (Nat.eqb_spec j i); subst; simpl; auto.
+  - destruct (exec_unreg_inv _ _ _ Hs) as (r0 & rest0 & aC & eR & _ & _ & Hu).
+    eapply (init_has_goroutine_unreg_step _ _ _ _ _ _ Hu). Unshelve.
+    intros j. destruct (pre404_frame c r0 eR) as (-> & _ & _ & _ & _ & -> & _). apply H.
   - destruct (negb (is_run (i_phase (c_inst c i))) || negb (mem s (i_sessions (c_inst c i)))); [discriminate|].
     destruct (inactive (c_inst c i)); inv_some; simpl; auto.
     intros j. unfold upd. destruct (Nat.eqb_spec j i); subst; simpl; auto.
@@ -665,11 +754,11 @@ Qed.
    instance whose run loop has returned.  Nothing is enabled any more, yet the request is still
    queued and the session's in-flight semaphore stays taken. *)
 Definition lost_leave_trace : list label :=
-  [ClientSub 1 1; HubJoin; InitDone 0 true; TopicReg 0 true;
-   ClientDel 2 1; HubUnreg true; TopicExit 0; ClientLeave 1 1 false; SessDetach 1].
+  [ClientSub 1 1 false; HubJoin; InitDone 0 true; TopicReg 0 true;
+   ClientDel 2 1; HubUnreg true; TopicExit 0; ClientLeave 1 1 false false; SessDetach 1].
 
 Lemma lost_leave_stuck :
-  exists c, run lost_leave_trace (init_config ex_stored ex_owner ex_user) = Some c /\
+  exists c, run lost_leave_trace (init_config ex_stored ex_owner ex_user ex_chan) = Some c /\
             c_tunreg c <> [] /\ s_inflight (c_sess c 1) = 1 /\
             c_hjoin c = [] /\ c_hunreg c = [] /\ c_inits c = [] /\ c_treg c = [] /\ c_texit c = [] /\
             i_phase (c_inst c 0) = PDead /\ (forall x, In x (c_tunreg c) -> fst x = 0).
